@@ -23,7 +23,7 @@ package queue
 //@ func (*SimpleQueue[T]).Add
 //@   for C15
 //@   requires q != nil && q.list != nil && q.metrics != nil && unlocked(addr(q.mu))
-//@   modifies lseq(q.list), llen(q.list), lockstate(addr(q.mu))
+//@   modifies lseq(q.list), llen(q.list), lockstate(addr(q.mu)), sends(q.signal)
 //@   ensures [C15.simple.add] llen(q.list) == old(llen(q.list)) + 1 && lseq(q.list) == store(old(lseq(q.list)), old(llen(q.list)), m)
 //@   ensures [C15.simple.add.unlock] unlocked(addr(q.mu))
 //@   ensures [C15.wakeup.signalled] sends(q.signal) == old(sends(q.signal)) + 1
